@@ -4,6 +4,7 @@
 package main
 
 import (
+	"encoding/hex"
 	"bufio"
 	"bytes"
 	"encoding/json"
@@ -337,7 +338,38 @@ func main() {
 	flag.IntVar(&maxLen, "maxlen", 2, "model field limit")
 	resp := flag.Bool("resp", false, "response streams")
 	corpus := flag.String("corpus", "", "go-fuzz corpus directory (request or response files)")
+	encgrid := flag.String("encgrid", "", "JSON list of [login-hex, password-hex]: print the Go encoder's bytes for each (service and realm empty)")
 	flag.Parse()
+	if *encgrid != "" { // golden bytes for the PAM-module comparison
+		raw, err := os.ReadFile(*encgrid)
+		if err != nil {
+			fmt.Fprintln(os.Stderr, "HARNESS ERROR:", err)
+			os.Exit(2)
+		}
+		var pairs [][2]string
+		if err := json.Unmarshal(raw, &pairs); err != nil {
+			fmt.Fprintln(os.Stderr, "HARNESS ERROR:", err)
+			os.Exit(2)
+		}
+		res := make([]map[string]string, 0, len(pairs))
+		for _, pr := range pairs {
+			l, _ := hex.DecodeString(pr[0])
+			pw, _ := hex.DecodeString(pr[1])
+			req := sasl.Request{Login: string(l), Password: string(pw)}
+			data, err := req.Marshal()
+			m := map[string]string{"bytes": hex.EncodeToString(data)}
+			if err != nil {
+				m["err"] = err.Error()
+			}
+			res = append(res, m)
+		}
+		b, _ := json.Marshal(res)
+		if err := os.WriteFile(*outp, b, 0644); err != nil {
+			fmt.Fprintln(os.Stderr, "HARNESS ERROR:", err)
+			os.Exit(2)
+		}
+		return
+	}
 	saslmap.MaxLen = maxLen
 	start := time.Now()
 	f, err := os.Open(*in)
